@@ -339,7 +339,8 @@ class C18(Check):
         spec = [tuple(r) for r in spec]
         scffld = build(spec)
         ia = IndexedAssembly("t", scaffolds=[scffld])
-        self.explore_bait(spec, scffld, ia, base_map_rows(scffld.rows), a, b, ctx, only_hist=[tuple(o) for o in hist])
+        src_map = (base_map_rows(scffld.rows, 1), base_map_rows(scffld.rows, -1))
+        self.explore_bait(spec, scffld, ia, src_map, a, b, ctx, only_hist=[tuple(o) for o in hist])
 
 
 CHECK = C18()
